@@ -213,8 +213,11 @@ where
         //
         let counter = HashMap::<u64, u64>::new();
         //
-        let mut rng = ThreadRng::default();
-        let seed = rng.next_u64();
+        // The default seed is a constant : 2 instances (in the same thread, in 2 threads or in 2 processes) must
+        // give the same signature for the same data, else signatures cannot be stored and compared.
+        // change_rng_seed can be used to get another seed.
+        let rng = ThreadRng::default();
+        let seed: u64 = 0x9e3779b97f4a7c15;
         //
         ProbOrdMinHash2 {
             m,
